@@ -1532,6 +1532,30 @@ class EffectDomain(DefaultDomain):
                     known = False
             if known and out:
                 return out
+        if d == "issubclass" and len(call.args) == 2 and not call.keywords and not st.has(fr.local("issubclass")):
+            # issubclass(type(e), C) / issubclass(exc_info[0], C): the class of an abstract exception against classes named in the test
+            tnames = [(dotted(t) or "").split(".")[-1] for t in (call.args[1].elts if isinstance(call.args[1], ast.Tuple) else [call.args[1]])]
+            if all(tnames) and not any(st.has(fr.local(n_)) for n_ in tnames):
+                out, known = [], True
+                for r in interp.eval(call.args[0], st, fr):
+                    v = r.value
+                    name = None
+                    if r.kind == "exc":
+                        out.append(r)
+                        continue
+                    if isinstance(v, tuple) and v[:1] == ("typeof",) and isinstance(self._as_exc(v[1]), tuple) and self._as_exc(v[1])[:1] == ("exc",):
+                        name = self._as_exc(v[1])[1]
+                    elif isinstance(v, tuple) and v[:1] == ("excclass",):
+                        name = v[1]
+                    elif isinstance(v, tuple) and v[:1] == ("classref",):
+                        name = v[1].name
+                    verdict = self._exc_isinstance(name, tnames, fr) if isinstance(name, str) else None
+                    if verdict is None:
+                        known = False
+                    else:
+                        out.append(val(TRUE if verdict else FALSE, r.state))
+                if known and out:
+                    return out
         if d == "isinstance" and len(call.args) == 2 and not call.keywords:
             # an abstract exception ("exc", ClassName): decided by name against exception classes named in the test
             tnames = [(dotted(t) or "").split(".")[-1] for t in (call.args[1].elts if isinstance(call.args[1], ast.Tuple) else [call.args[1]])]
